@@ -1,7 +1,8 @@
 /-
 Helper lemmas for C16 (server part): the will bookkeeping of `remote()` (`Model/ServerWill.lean`).
-Three invariants of `World.run {} ops`:
-  `InvA` counting / phase clauses, `InvB` handler map and signals, `InvP` the poison-free fragment.
+Two invariants of `World.run {} ops`:
+  `InvA` counting / phase clauses, `InvB` handler map and signals; `NoNewPanic` (a step relation:
+  only `taskPanic t` makes task `t` panicked) and the handler map under one admission.
 -/
 import Model.ServerWill
 import Proofs.Lemmas.Router.Assoc
@@ -72,9 +73,6 @@ structure InvA (w : World) : Prop where
 @[simp] theorem handlers_setTask (w : World) (u : Nat) (x : Task) :
     (w.setTask u x).handlers = w.handlers := rfl
 @[simp] theorem handlers_emit (w : World) (e : Ev) : (w.emit e).handlers = w.handlers := rfl
-@[simp] theorem poisoned_setTask (w : World) (u : Nat) (x : Task) :
-    (w.setTask u x).poisoned = w.poisoned := rfl
-@[simp] theorem poisoned_emit (w : World) (e : Ev) : (w.emit e).poisoned = w.poisoned := rfl
 @[simp] theorem now_setTask (w : World) (u : Nat) (x : Task) : (w.setTask u x).now = w.now := rfl
 @[simp] theorem now_emit (w : World) (e : Ev) : (w.emit e).now = w.now := rfl
 
@@ -158,11 +156,10 @@ theorem InvA.resolveTimeout {w : World} (h : InvA w) {n : Nat} {x : Task} {d : N
   rw [hres] at hpw
   simp only [willCount] at hpw
   unfold World.resolveTimeout
-  split <;> try simp only
-  all_goals
-    refine h.update n x _ hx (by simp; rfl) ?_ ?_
-    · intro u hu; simp [Ne.symm hu]; try exact ⟨rfl, rfl⟩
-    · constructor <;> simp_all [willCount, publishWillDecision] <;> rfl
+  simp only
+  refine h.update n x _ hx (by simp; rfl) ?_ ?_
+  · intro u hu; simp [Ne.symm hu]; try exact ⟨rfl, rfl⟩
+  · constructor <;> simp_all [willCount, publishWillDecision] <;> rfl
 
 theorem InvA.endLink {w : World} (h : InvA w) (t : Nat) (c : Cause) : InvA (w.endLink t c) := by
   unfold World.endLink
@@ -194,8 +191,8 @@ theorem InvA.endLink {w : World} (h : InvA w) (t : Nat) (c : Cause) : InvA (w.en
           · constructor <;> simp_all [willCount, discCount, publishWillDecision]
       · split
         · unfold World.resolveTimeout
-          cases hsd' : c.sendDisconnect <;> cases hp : w.poisoned <;>
-            simp only [if_true, if_false, Bool.false_eq_true, poisoned_emit, hp]
+          cases hsd' : c.sendDisconnect <;>
+            simp only [if_true, if_false, Bool.false_eq_true]
           all_goals
             refine h.update t x _ hx (by simp; rfl) ?_ ?_
             · intro u hu; simp [Ne.symm hu]; try exact ⟨rfl, rfl⟩
@@ -253,24 +250,22 @@ theorem InvA.handlerStep {w : World} (h : InvA w) (cid : String) (clean : Bool) 
   unfold World.handlerStep
   simp only
   split
-  · exact h.append _ rfl (fun _ => ⟨rfl, rfl⟩) (TaskA.fresh _ _ _ _ (Or.inr rfl))
-  · split
+  · exact h.append _ rfl (fun _ => ⟨rfl, rfl⟩) (TaskA.fresh _ _ _ _ (Or.inl rfl))
+  · rename_i o hlook
+    split
     · exact h.append _ rfl (fun _ => ⟨rfl, rfl⟩) (TaskA.fresh _ _ _ _ (Or.inl rfl))
-    · rename_i o hlook
+    · rename_i old ho
+      simp only [World.task?] at ho
       split
+      · have h1 : InvA (({ w with handlers := aremove cid w.handlers } : World).setTask o
+            { old with inbox := some (if clean then Signal.fire else Signal.cancel) }) := by
+          have hx' := h.task o old ho
+          refine h.update o old _ ho rfl ?_ ?_
+          · intro u hu; exact ⟨rfl, rfl⟩
+          · obtain ⟨a, b, c, d, e, f⟩ := hx'
+            constructor <;> simp_all
+        exact h1.append _ rfl (fun _ => ⟨rfl, rfl⟩) (TaskA.fresh _ _ _ _ (Or.inl rfl))
       · exact h.append _ rfl (fun _ => ⟨rfl, rfl⟩) (TaskA.fresh _ _ _ _ (Or.inl rfl))
-      · rename_i old ho
-        simp only [World.task?] at ho
-        split
-        · have h1 : InvA (({ w with handlers := aremove cid w.handlers } : World).setTask o
-              { old with inbox := some (if clean then Signal.fire else Signal.cancel) }) := by
-            have hx' := h.task o old ho
-            refine h.update o old _ ho rfl ?_ ?_
-            · intro u hu; exact ⟨rfl, rfl⟩
-            · obtain ⟨a, b, c, d, e, f⟩ := hx'
-              constructor <;> simp_all
-          exact h1.append _ rfl (fun _ => ⟨rfl, rfl⟩) (TaskA.fresh _ _ _ _ (Or.inl rfl))
-        · exact h.append _ rfl (fun _ => ⟨rfl, rfl⟩) (TaskA.fresh _ _ _ _ (Or.inr rfl))
 
 theorem InvA.wake {w : World} (h : InvA w) (n : Nat) : InvA (w.wake n) := by
   induction n with
@@ -312,15 +307,7 @@ theorem InvA.advance {w : World} (h : InvA w) (ms : Nat) : InvA (w.advance ms) :
 theorem InvA.step {w : World} (h : InvA w) (op : Op) : InvA (w.step op) := by
   cases op with
   | admitted cid clean delay linkOk =>
-    have h1 := h.handlerStep cid clean delay
-    simp only [World.step]
-    split
-    · rename_i w' t he
-      rw [he] at h1
-      exact (h1.linkStep t linkOk).wake _
-    · rename_i w' t he
-      rw [he] at h1
-      exact h1
+    exact ((h.handlerStep cid clean delay).linkStep _ linkOk).wake _
   | ended t c => exact h.endLink t c
   | taskPanic t => exact h.panicLink t
   | advance ms => exact h.advance ms
@@ -498,23 +485,16 @@ theorem InvB.resolveTimeout {w : World} (h : InvB w) {n : Nat} {x x0 : Task}
     (hx : w.tasks[n]? = some x0) (hc : x.cid = x0.cid) (hcl : x.clean = x0.clean)
     (hi : x.inbox = x0.inbox) : InvB (w.resolveTimeout n x) := by
   unfold World.resolveTimeout
-  split <;> try simp only
-  · refine h.update n x0 _ hx (by simp; rfl) ?_ ?_ ?_ ?_
-    · exact hc
-    · exact hcl
-    · exact fun _ _ hu => hu
-    · intro s' hs'
-      simp at hs'
-      exact Or.inl (hi ▸ hs')
-  · refine h.update n x0 _ hx (by simp; rfl) ?_ ?_ ?_ ?_
-    · exact hc
-    · exact hcl
-    · intro cid u hu
-      simp [alookup_aremove] at hu
-      exact hu.2
-    · intro s' hs'
-      simp at hs'
-      exact Or.inl (hi ▸ hs')
+  simp only
+  refine h.update n x0 _ hx (by simp; rfl) ?_ ?_ ?_ ?_
+  · exact hc
+  · exact hcl
+  · intro cid u hu
+    simp [alookup_aremove] at hu
+    exact hu.2
+  · intro s' hs'
+    simp at hs'
+    exact Or.inl (hi ▸ hs')
 
 theorem InvB.emit {w : World} (h : InvB w) (e : Ev) : InvB (w.emit e) := ⟨h.hcid, h.later⟩
 
@@ -568,52 +548,55 @@ theorem InvB.linkStep {w : World} (h : InvB w) (t : Nat) (ok : Bool) : InvB (w.l
     · simp only
       split
       · exact (h.emit _).touch t x _ hx rfl rfl rfl rfl rfl rfl
-      · exact (h.emit _).touch t x _ hx rfl rfl rfl rfl rfl rfl
+      · refine (h.emit (.connect t x.cid)).update t x _ hx rfl rfl rfl ?_ (fun _ hs => hs)
+        intro cid u hu
+        simp [alookup_aremove] at hu
+        exact hu.2
 
 theorem InvB.handlerStep {w : World} (h : InvB w) (cid : String) (clean : Bool) (delay : Nat) :
     InvB (w.handlerStep cid clean delay).1 := by
   unfold World.handlerStep
   simp only
   split
-  · exact h.append _ rfl rfl rfl (fun _ _ hu => Or.inl hu)
-  · split
+  · refine h.append _ rfl rfl rfl ?_
+    intro cid' u hu
+    simp only [alookup_ainsert] at hu
+    split at hu
+    · rename_i hc; simp at hu; exact Or.inr ⟨hu.symm, hc.symm⟩
+    · exact Or.inl hu
+  · rename_i o hlook
+    split
     · refine h.append _ rfl rfl rfl ?_
       intro cid' u hu
-      simp only [alookup_ainsert] at hu
+      simp only [alookup_ainsert, alookup_aremove] at hu
       split at hu
       · rename_i hc; simp at hu; exact Or.inr ⟨hu.symm, hc.symm⟩
       · exact Or.inl hu
-    · rename_i o hlook
+    · rename_i old ho
+      simp only [World.task?] at ho
+      obtain ⟨old', ho', hoc⟩ := h.hcid cid o hlook
+      have : old' = old := by
+        have : w.tasks[o]? = some old := ho
+        rw [ho'] at this; simpa using this
+      subst this
       split
+      · refine h.setAppend o old' _ [_] ho' rfl (Or.inr ⟨_, rfl, rfl, rfl⟩) rfl rfl ?_ ?_
+        · intro cid' u hu
+          simp only [handlers_setTask, alookup_ainsert, alookup_aremove] at hu
+          split at hu
+          · rename_i hc; simp at hu; exact Or.inr ⟨_, rfl, hu.symm, hc.symm⟩
+          · exact Or.inl hu
+        · intro s' hs'
+          simp at hs'
+          rcases hs' with hs' | hs'
+          · exact Or.inr ⟨_, rfl, hoc.symm, hs'.symm⟩
+          · exact Or.inl (Or.inr hs')
       · refine h.append _ rfl rfl rfl ?_
         intro cid' u hu
         simp only [alookup_ainsert, alookup_aremove] at hu
         split at hu
         · rename_i hc; simp at hu; exact Or.inr ⟨hu.symm, hc.symm⟩
         · exact Or.inl hu
-      · rename_i old ho
-        simp only [World.task?] at ho
-        obtain ⟨old', ho', hoc⟩ := h.hcid cid o hlook
-        have : old' = old := by
-          have : w.tasks[o]? = some old := ho
-          rw [ho'] at this; simpa using this
-        subst this
-        split
-        · refine h.setAppend o old' _ [_] ho' rfl (Or.inr ⟨_, rfl, rfl, rfl⟩) rfl rfl ?_ ?_
-          · intro cid' u hu
-            simp only [handlers_setTask, alookup_ainsert, alookup_aremove] at hu
-            split at hu
-            · rename_i hc; simp at hu; exact Or.inr ⟨_, rfl, hu.symm, hc.symm⟩
-            · exact Or.inl hu
-          · intro s' hs'
-            simp at hs'
-            rcases hs' with hs' | hs'
-            · exact Or.inr ⟨_, rfl, hoc.symm, hs'.symm⟩
-            · exact Or.inl (Or.inr hs')
-        · refine h.append _ rfl rfl rfl ?_
-          intro cid' u hu
-          simp [alookup_aremove] at hu
-          exact Or.inl hu.2
 
 theorem InvB.wake {w : World} (h : InvB w) (n : Nat) : InvB (w.wake n) := by
   induction n with
@@ -654,15 +637,7 @@ theorem InvB.advance {w : World} (h : InvB w) (ms : Nat) : InvB (w.advance ms) :
 theorem InvB.step {w : World} (h : InvB w) (op : Op) : InvB (w.step op) := by
   cases op with
   | admitted cid clean delay linkOk =>
-    have h1 := h.handlerStep cid clean delay
-    simp only [World.step]
-    split
-    · rename_i w' t he
-      rw [he] at h1
-      exact (h1.linkStep t linkOk).wake _
-    · rename_i w' t he
-      rw [he] at h1
-      exact h1
+    exact ((h.handlerStep cid clean delay).linkStep _ linkOk).wake _
   | ended t c => exact h.endLink t c
   | taskPanic t => exact h.panicLink t
   | advance ms => exact h.advance ms
@@ -672,287 +647,269 @@ theorem InvB.run {w : World} (h : InvB w) (ops : List Op) : InvB (w.run ops) := 
   | nil => exact h
   | cons op ops ih => exact ih (h.step op)
 
-/-! ### the poison-free fragment: every admission is linked, no task panics inside its link -/
+/-! ### panics come only from `taskPanic`; the handler map under one admission -/
 
-def OkOp : Op → Prop
-  | .admitted _ _ _ linkOk => linkOk = true
-  | .taskPanic _ => False
-  | _ => True
+/-- every panicked task of `w'` was already panicked in `w` -/
+@[reducible] def NoNewPanic (w w' : World) : Prop :=
+  ∀ (t : Nat) (x : Task), w'.tasks[t]? = some x → x.phase = .panicked →
+    ∃ x0 : Task, w.tasks[t]? = some x0 ∧ x0.phase = .panicked
 
-structure InvP (w : World) : Prop where
-  np : w.poisoned = false
-  task : ∀ (t : Nat) (x : Task), w.tasks[t]? = some x →
-    x.phase ≠ .panicked ∧ x.resolution ≠ some .poisonedAtExpiry
-  handler : ∀ cid o, alookup cid w.handlers = some o →
-    ∃ x, w.tasks[o]? = some x ∧ x.cid = cid ∧ x.receiverAlive = true ∧ x.inbox = none
+theorem NoNewPanic.refl (w : World) : NoNewPanic w w := fun _ x h hp => ⟨x, h, hp⟩
 
-theorem InvP.init : InvP {} := by
-  constructor
-  · rfl
-  · intro t x h; simp at h
-  · intro cid o h; simp [alookup] at h
+theorem NoNewPanic.trans {w1 w2 w3 : World} (h12 : NoNewPanic w1 w2) (h23 : NoNewPanic w2 w3) :
+    NoNewPanic w1 w3 := by
+  intro t x h hp
+  obtain ⟨y, hy, hyp⟩ := h23 t x h hp
+  exact h12 t y hy hyp
 
-theorem InvP.update {w w' : World} (h : InvP w) (t : Nat) (x x' : Task)
-    (hx : w.tasks[t]? = some x) (ht : w'.tasks = w.tasks.set t x')
-    (hp : w'.poisoned = w.poisoned) (hph : x'.phase ≠ .panicked)
-    (hr : x'.resolution ≠ some .poisonedAtExpiry) (hc : x'.cid = x.cid)
-    (hh : ∀ cid u, alookup cid w'.handlers = some u → alookup cid w.handlers = some u ∧
-        (u = t → x'.receiverAlive = true ∧ x'.inbox = none)) : InvP w' := by
-  have hlt := lt_of_getElem?_some hx
-  constructor
-  · rw [hp]; exact h.np
-  · intro u y hy
-    rw [ht, List.getElem?_set] at hy
-    by_cases hut : t = u
-    · subst hut; simp [hlt] at hy; subst hy; exact ⟨hph, hr⟩
-    · simp [hut] at hy; exact h.task u y hy
-  · intro cid u hu
-    obtain ⟨h1, h2⟩ := hh cid u hu
-    obtain ⟨y, hy, hyc, hya, hyi⟩ := h.handler cid u h1
-    by_cases hut : u = t
-    · subst hut
-      rw [hx] at hy; simp at hy; subst hy
-      refine ⟨x', by rw [ht]; simp [hlt], by rw [hc]; exact hyc, (h2 rfl).1, (h2 rfl).2⟩
-    · exact ⟨y, by rw [ht]; simp [Ne.symm hut, hy], hyc, hya, hyi⟩
+theorem NoNewPanic.of_tasks {w w' : World} (h : w'.tasks = w.tasks) : NoNewPanic w w' := by
+  intro t x hx hp
+  exact ⟨x, h ▸ hx, hp⟩
 
-theorem InvP.append {w w' : World} (h : InvP w) (f : Task)
-    (ht : w'.tasks = w.tasks ++ [f]) (hp : w'.poisoned = w.poisoned)
-    (hph : f.phase = .running) (hr : f.resolution = none) (hi : f.inbox = none)
-    (hh : ∀ cid u, alookup cid w'.handlers = some u → alookup cid w.handlers = some u ∨
-        (u = w.tasks.length ∧ f.cid = cid)) : InvP w' := by
-  constructor
-  · rw [hp]; exact h.np
-  · intro u y hy
-    rw [ht, List.getElem?_append] at hy
-    split at hy
-    · exact h.task u y hy
-    · have hlen : u - w.tasks.length = 0 := by
-        rcases Nat.eq_zero_or_pos (u - w.tasks.length) with h0 | h0
-        · exact h0
-        · rw [List.getElem?_eq_none (by simp; omega)] at hy; simp at hy
-      rw [hlen] at hy; simp at hy; subst hy
-      simp [hph, hr]
-  · intro cid u hu
-    rcases hh cid u hu with h1 | ⟨hu', hfc⟩
-    · obtain ⟨y, hy, hyc, hya, hyi⟩ := h.handler cid u h1
-      exact ⟨y, by rw [ht, List.getElem?_append_left (lt_of_getElem?_some hy)]; exact hy, hyc, hya, hyi⟩
-    · subst hu'
-      refine ⟨f, by rw [ht, List.getElem?_append_right (by simp)]; simp, hfc, ?_, hi⟩
-      simp [Task.receiverAlive, hph]
+theorem NoNewPanic.setTask (w : World) (t : Nat) (x : Task) (hp : x.phase ≠ .panicked) :
+    NoNewPanic w (w.setTask t x) := by
+  intro u y hy hyp
+  rw [tasks_setTask, List.getElem?_set] at hy
+  by_cases hut : t = u
+  · subst hut
+    by_cases hlt : t < w.tasks.length
+    · simp [hlt] at hy; subst hy; exact absurd hyp hp
+    · simp [hlt] at hy
+  · simp [hut] at hy
+    exact ⟨y, hy, hyp⟩
 
-theorem InvP.emit {w : World} (h : InvP w) (e : Ev) : InvP (w.emit e) := ⟨h.np, h.task, h.handler⟩
+theorem NoNewPanic.append (w : World) (f : Task) (hs : List (String × Nat))
+    (hp : f.phase ≠ .panicked) :
+    NoNewPanic w { w with tasks := w.tasks ++ [f], handlers := hs } := by
+  intro u y hy hyp
+  simp only [List.getElem?_append] at hy
+  split at hy
+  · exact ⟨y, hy, hyp⟩
+  · have hlen : u - w.tasks.length = 0 := by
+      rcases Nat.eq_zero_or_pos (u - w.tasks.length) with h0 | h0
+      · exact h0
+      · rw [List.getElem?_eq_none (by simp; omega)] at hy; simp at hy
+    rw [hlen] at hy; simp at hy; subst hy; exact absurd hyp hp
 
-/-- a task named by the handler map has an empty inbox -/
-theorem InvP.not_named {w : World} (h : InvP w) {n : Nat} {x : Task} {s : Signal}
-    (hx : w.tasks[n]? = some x) (hi : x.inbox = some s) {cid : String}
-    (hu : alookup cid w.handlers = some n) : False := by
-  obtain ⟨y, hy, _, _, hyi⟩ := h.handler cid n hu
-  rw [hx] at hy; simp at hy; subst hy
-  rw [hi] at hyi; simp at hyi
-
-theorem InvP.resolveSignal {w : World} (h : InvP w) {n : Nat} {x x0 : Task} {s : Signal}
-    (hx : w.tasks[n]? = some x0) (hc : x.cid = x0.cid)
-    (hi0 : x0.inbox = some s) : InvP (w.resolveSignal n x s) := by
+theorem NoNewPanic.resolveSignal (w : World) (n : Nat) (x : Task) (s : Signal) :
+    NoNewPanic w (w.resolveSignal n x s) := by
   unfold World.resolveSignal
   cases s <;> simp only
-  all_goals
-    refine h.update n x0 _ hx (by simp; rfl) rfl ?_ ?_ ?_ ?_
-    · simp
-    · simp
-    · exact hc
-    · intro cid u hu
-      refine ⟨hu, ?_⟩
-      intro hun; subst hun
-      exact (h.not_named hx hi0 hu).elim
+  · exact (NoNewPanic.setTask w n _ (by simp)).trans (NoNewPanic.of_tasks rfl)
+  · exact NoNewPanic.setTask w n _ (by simp)
 
-theorem InvP.resolveTimeout {w : World} (h : InvP w) {n : Nat} {x x0 : Task}
-    (hx : w.tasks[n]? = some x0) (hc : x.cid = x0.cid) : InvP (w.resolveTimeout n x) := by
+theorem NoNewPanic.resolveTimeout (w : World) (n : Nat) (x : Task) :
+    NoNewPanic w (w.resolveTimeout n x) := by
   unfold World.resolveTimeout
-  simp only [h.np, Bool.false_eq_true, if_false]
-  refine h.update n x0 _ hx (by simp; rfl) h.np.symm ?_ ?_ ?_ ?_
-  · simp
-  · simp
-  · exact hc
-  · intro cid u hu
-    simp [alookup_aremove] at hu
-    refine ⟨hu.2, ?_⟩
-    intro hun; subst hun
-    obtain ⟨y, hy, hyc, _, _⟩ := h.handler cid u hu.2
-    rw [hx] at hy; simp at hy; subst hy
-    exact (hu.1 (by rw [hc]; exact hyc.symm)).elim
+  simp only
+  refine (NoNewPanic.of_tasks (w := w) (w' := { w with handlers := aremove x.cid w.handlers }) rfl).trans ?_
+  exact (NoNewPanic.setTask _ n _ (by simp)).trans (NoNewPanic.of_tasks rfl)
 
-theorem InvP.endLink {w : World} (h : InvP w) (t : Nat) (c : Cause) : InvP (w.endLink t c) := by
-  unfold World.endLink
+theorem NoNewPanic.handlerStep (w : World) (cid : String) (clean : Bool) (delay : Nat) :
+    NoNewPanic w (w.handlerStep cid clean delay).1 := by
+  unfold World.handlerStep
+  simp only
   split
-  · exact h
-  · rename_i x hx
-    simp only [World.task?] at hx
+  · exact NoNewPanic.append w _ _ (by simp)
+  · rename_i o hlook
     split
-    · exact h
-    · rename_i hc
-      simp at hc
-      have h' : InvP (if c.sendDisconnect = true then w.emit (Ev.disconnect t) else w) := by
-        split
-        · exact h.emit _
-        · exact h
-      have hx' : (if c.sendDisconnect = true then w.emit (Ev.disconnect t) else w).tasks[t]? = some x := by
-        split <;> exact hx
-      simp only
+    · exact (NoNewPanic.of_tasks (w := w) (w' := { w with handlers := aremove cid w.handlers }) rfl).trans
+        (NoNewPanic.append _ _ _ (by simp))
+    · rename_i old ho
       split
-      · rename_i s hs
-        exact h'.resolveSignal hx' rfl hs
-      · rename_i hs
-        split
-        · exact h'.resolveTimeout hx' rfl
-        · have hres : x.resolution ≠ some .poisonedAtExpiry := (h.task t x hx).2
-          refine h'.update t x _ hx' rfl rfl ?_ ?_ ?_ ?_
-          · simp
-          · exact hres
-          · rfl
-          · intro cid u hu
-            refine ⟨hu, fun _ => ⟨?_, hs⟩⟩
-            simp [Task.receiverAlive]
+      · rename_i hc
+        have hal : old.phase ≠ .panicked := by
+          intro hp
+          simp [Task.receiverAlive, hp] at hc
+        refine NoNewPanic.trans
+          (w2 := ({ w with handlers := aremove cid w.handlers } : World).setTask o
+            { old with inbox := some (if clean then Signal.fire else Signal.cancel) })
+          ?_ (NoNewPanic.append _ _ _ (by simp))
+        exact (NoNewPanic.of_tasks (w := w) (w' := { w with handlers := aremove cid w.handlers }) rfl).trans
+          (NoNewPanic.setTask _ _ _ hal)
+      · exact (NoNewPanic.of_tasks (w := w) (w' := { w with handlers := aremove cid w.handlers }) rfl).trans
+          (NoNewPanic.append _ _ _ (by simp))
 
-theorem InvP.linkStep {w : World} (h : InvP w) (t : Nat) : InvP (w.linkStep t true) := by
+theorem NoNewPanic.linkStep (w : World) (t : Nat) (ok : Bool) : NoNewPanic w (w.linkStep t ok) := by
   unfold World.linkStep
   split
-  · exact h
+  · exact NoNewPanic.refl w
   · rename_i x hx
-    simp only [World.task?] at hx
     split
-    · exact h
+    · exact NoNewPanic.refl w
     · rename_i hc
       simp at hc
-      simp only [if_true]
-      refine (h.emit _).update t x _ hx rfl rfl ?_ ?_ ?_ ?_
-      · simp [hc]
-      · exact (h.task t x hx).2
-      · rfl
-      · intro cid u hu
-        refine ⟨hu, ?_⟩
-        intro hut; subst hut
-        obtain ⟨y, hy, _, hya, hyi⟩ := h.handler cid u hu
-        rw [hx] at hy; simp at hy; subst hy
-        exact ⟨by simpa [Task.receiverAlive] using hya, hyi⟩
+      simp only
+      split
+      · exact (NoNewPanic.of_tasks (w := w) (w' := w.emit (.connect t x.cid)) rfl).trans
+          (NoNewPanic.setTask _ _ _ (by simp [hc]))
+      · refine (NoNewPanic.of_tasks (w := w)
+          (w' := { w.emit (.connect t x.cid) with
+                    handlers := aremove x.cid (w.emit (.connect t x.cid)).handlers }) rfl).trans ?_
+        exact NoNewPanic.setTask _ _ _ (by simp)
 
-theorem InvP.handlerStep {w : World} (h : InvP w) (cid : String) (clean : Bool) (delay : Nat) :
-    InvP (w.handlerStep cid clean delay).1 := by
-  unfold World.handlerStep
-  simp only [h.np, Bool.false_eq_true, if_false]
+theorem NoNewPanic.endLink (w : World) (t : Nat) (c : Cause) : NoNewPanic w (w.endLink t c) := by
+  unfold World.endLink
   split
-  · refine h.append _ rfl h.np.symm rfl rfl rfl ?_
-    intro cid' u hu
-    simp only [alookup_ainsert] at hu
-    split at hu
-    · rename_i hc; simp at hu; exact Or.inr ⟨hu.symm, hc.symm⟩
-    · exact Or.inl hu
-  · rename_i o hlook
-    obtain ⟨old, ho, hoc, hoa, hoi⟩ := h.handler cid o hlook
+  · exact NoNewPanic.refl w
+  · rename_i x hx
     split
-    · rename_i hn
-      have : w.tasks[o]? = none := hn
-      rw [ho] at this; simp at this
-    · rename_i old' ho'
-      have : w.tasks[o]? = some old' := ho'
-      rw [ho] at this; simp at this; subst this
-      simp only [hoa, hoi, Option.isNone_none, Bool.and_self, if_true]
-      have h1 : InvP (({ w with handlers := aremove cid w.handlers } : World).setTask o
-          { old with inbox := some (if clean then Signal.fire else Signal.cancel) }) := by
-        refine h.update o old _ ho rfl rfl ?_ ?_ rfl ?_
-        · exact (h.task o old ho).1
-        · exact (h.task o old ho).2
-        · intro cid' u hu
-          simp [alookup_aremove] at hu
-          refine ⟨hu.2, ?_⟩
-          intro huo; subst huo
-          obtain ⟨y, hy, hyc, _, _⟩ := h.handler cid' u hu.2
-          rw [ho] at hy; simp at hy; subst hy
-          exact (hu.1 (hyc.symm.trans hoc)).elim
-      refine h1.append _ rfl h.np.symm rfl rfl rfl ?_
-      intro cid' u hu
-      simp only [alookup_ainsert] at hu
-      split at hu
-      · rename_i hc; simp at hu; exact Or.inr ⟨by simp [hu], hc.symm⟩
-      · exact Or.inl hu
+    · exact NoNewPanic.refl w
+    · have h' : NoNewPanic w (if c.sendDisconnect = true then w.emit (Ev.disconnect t) else w) := by
+        split
+        · exact NoNewPanic.of_tasks rfl
+        · exact NoNewPanic.refl w
+      simp only
+      split
+      · exact h'.trans (NoNewPanic.resolveSignal _ _ _ _)
+      · split
+        · exact h'.trans (NoNewPanic.resolveTimeout _ _ _)
+        · exact h'.trans (NoNewPanic.setTask _ _ _ (by simp))
 
-theorem InvP.wake {w : World} (h : InvP w) (n : Nat) : InvP (w.wake n) := by
+theorem NoNewPanic.wake (w : World) (n : Nat) : NoNewPanic w (w.wake n) := by
   induction n with
-  | zero => exact h
+  | zero => exact NoNewPanic.refl w
   | succ n ih =>
     unfold World.wake
     simp only
     split
-    · rename_i x hx
-      simp only [World.task?] at hx
-      split
-      · rename_i d s hp hi
-        exact ih.resolveSignal hx rfl hi
+    · split
+      · exact ih.trans (NoNewPanic.resolveSignal _ _ _ _)
       · exact ih
     · exact ih
 
-theorem InvP.expire {w : World} (h : InvP w) (n : Nat) : InvP (w.expire n) := by
+theorem NoNewPanic.expire (w : World) (n : Nat) : NoNewPanic w (w.expire n) := by
   induction n with
-  | zero => exact h
+  | zero => exact NoNewPanic.refl w
   | succ n ih =>
     unfold World.expire
     simp only
     split
-    · rename_i x hx
-      simp only [World.task?] at hx
-      split
+    · split
       · split
-        · exact ih.resolveTimeout hx rfl
+        · exact ih.trans (NoNewPanic.resolveTimeout _ _ _)
         · exact ih
       · exact ih
     · exact ih
 
-theorem InvP.advance {w : World} (h : InvP w) (ms : Nat) : InvP (w.advance ms) := by
+theorem NoNewPanic.advance (w : World) (ms : Nat) : NoNewPanic w (w.advance ms) := by
   unfold World.advance
   simp only
-  exact InvP.expire (w := { w with now := w.now + ms }) ⟨h.np, h.task, h.handler⟩ _
+  exact (NoNewPanic.of_tasks (w := w) (w' := { w with now := w.now + ms }) rfl).trans
+    (NoNewPanic.expire _ _)
 
-theorem InvP.step {w : World} (h : InvP w) (op : Op) (hop : OkOp op) : InvP (w.step op) := by
+/-- `panicLink t` is the only step that makes a task panicked, and only task `t` -/
+theorem panicLink_panicked (w : World) (t u : Nat) (y : Task)
+    (hy : (w.panicLink t).tasks[u]? = some y) (hyp : y.phase = .panicked) :
+    u = t ∨ ∃ x0, w.tasks[u]? = some x0 ∧ x0.phase = .panicked := by
+  unfold World.panicLink at hy
+  split at hy
+  · exact Or.inr ⟨y, hy, hyp⟩
+  · split at hy
+    · exact Or.inr ⟨y, hy, hyp⟩
+    · rw [tasks_setTask, List.getElem?_set] at hy
+      by_cases hut : t = u
+      · exact Or.inl hut.symm
+      · simp [hut] at hy
+        exact Or.inr ⟨y, hy, hyp⟩
+
+theorem step_admitted (w : World) (cid : String) (clean : Bool) (delay : Nat) (ok : Bool) :
+    w.step (.admitted cid clean delay ok) =
+      (((w.handlerStep cid clean delay).1.linkStep (w.handlerStep cid clean delay).2 ok).wake
+        ((w.handlerStep cid clean delay).1.linkStep (w.handlerStep cid clean delay).2 ok).tasks.length) :=
+  rfl
+
+theorem step_panicked (w : World) (op : Op) (t : Nat) (x : Task)
+    (h : (w.step op).tasks[t]? = some x) (hp : x.phase = .panicked) :
+    op = .taskPanic t ∨ ∃ x0, w.tasks[t]? = some x0 ∧ x0.phase = .panicked := by
   cases op with
   | admitted cid clean delay linkOk =>
-    have h1 := h.handlerStep cid clean delay
-    simp only [OkOp] at hop
-    subst hop
-    simp only [World.step]
-    split
-    · rename_i w' t he
-      rw [he] at h1
-      exact (h1.linkStep t).wake _
-    · rename_i w' t he
-      rw [he] at h1
-      exact h1
-  | ended t c => exact h.endLink t c
-  | taskPanic t => exact hop.elim
-  | advance ms => exact h.advance ms
+    rw [step_admitted] at h
+    exact Or.inr (((NoNewPanic.handlerStep w cid clean delay).trans
+      ((NoNewPanic.linkStep _ _ _).trans (NoNewPanic.wake _ _))) t x h hp)
+  | ended u c => exact Or.inr (NoNewPanic.endLink w u c t x h hp)
+  | taskPanic u =>
+    rcases panicLink_panicked w u t x h hp with h1 | h1
+    · exact Or.inl (by rw [h1])
+    · exact Or.inr h1
+  | advance ms => exact Or.inr (NoNewPanic.advance w ms t x h hp)
 
-theorem InvP.run {w : World} (h : InvP w) (ops : List Op) (hok : ∀ op ∈ ops, OkOp op) :
-    InvP (w.run ops) := by
+/-- a task that is panicked after `ops` was panicked before, or `taskPanic t` is among `ops` -/
+theorem run_panicked (w : World) (ops : List Op) (t : Nat) (x : Task)
+    (h : (w.run ops).tasks[t]? = some x) (hp : x.phase = .panicked) :
+    Op.taskPanic t ∈ ops ∨ ∃ x0, w.tasks[t]? = some x0 ∧ x0.phase = .panicked := by
   induction ops generalizing w with
-  | nil => exact h
+  | nil => exact Or.inr ⟨x, h, hp⟩
   | cons op ops ih =>
-    exact ih (h.step op (hok op (List.mem_cons_self ..))) (fun o ho => hok o (List.mem_cons_of_mem _ ho))
+    rcases ih (w.step op) h with h1 | ⟨y, hy, hyp⟩
+    · exact Or.inl (List.mem_cons_of_mem _ h1)
+    · rcases step_panicked w op t y hy hyp with h2 | h2
+      · exact Or.inl (h2 ▸ List.mem_cons_self ..)
+      · exact Or.inr h2
+
+theorem resolveSignal_handlers (w : World) (n : Nat) (x : Task) (s : Signal) :
+    (w.resolveSignal n x s).handlers = w.handlers := by
+  cases s <;> rfl
+
+/-- the will wait's receiving side never touches the handler map -/
+theorem wake_handlers (w : World) (n : Nat) : (w.wake n).handlers = w.handlers := by
+  induction n with
+  | zero => rfl
+  | succ n ih =>
+    unfold World.wake
+    simp only
+    split
+    · split
+      · rw [resolveSignal_handlers, ih]
+      · exact ih
+    · exact ih
+
+theorem handlerStep_snd (w : World) (cid : String) (clean : Bool) (delay : Nat) :
+    (w.handlerStep cid clean delay).2 = w.tasks.length := rfl
+
+/-- the handler step appends the new, running task … -/
+theorem handlerStep_task (w : World) (cid : String) (clean : Bool) (delay : Nat) :
+    (w.handlerStep cid clean delay).1.task? (w.handlerStep cid clean delay).2 =
+      some { cid := cid, clean := clean, delay := delay, phase := .running } := by
+  unfold World.handlerStep World.task?
+  simp only
+  split
+  · simp
+  · split
+    · simp
+    · split
+      · simp
+      · simp
+
+/-- … and registers it under its client id -/
+theorem handlerStep_handlers (w : World) (cid : String) (clean : Bool) (delay : Nat) :
+    alookup cid (w.handlerStep cid clean delay).1.handlers = some (w.handlerStep cid clean delay).2 := by
+  unfold World.handlerStep
+  simp only
+  exact Router.alookup_ainsert_same _ _ _
+
+/-- a refused `RemoteLink::new` of a running task takes its handler out again -/
+theorem linkStep_false_handlers (w : World) (t : Nat) (x : Task) (h : w.task? t = some x)
+    (hp : x.phase = .running) : (w.linkStep t false).handlers = aremove x.cid w.handlers := by
+  unfold World.linkStep
+  rw [h]
+  simp [hp]
 
 /-! ### one step: will delay and timeout -/
 
 theorem resolveTimeout_now (w : World) (m : Nat) (x : Task) : (w.resolveTimeout m x).now = w.now := by
-  unfold World.resolveTimeout; split <;> rfl
+  rfl
 
 theorem resolveTimeout_other (w : World) (m : Nat) (x : Task) (t : Nat) (h : t ≠ m) :
     (w.resolveTimeout m x).tasks[t]? = w.tasks[t]? := by
   unfold World.resolveTimeout
-  split <;> simp [Ne.symm h]
+  simp [Ne.symm h]
 
 theorem resolveTimeout_same (w : World) (m : Nat) (x : Task) (h : m < w.tasks.length) :
     ∃ y, (w.resolveTimeout m x).tasks[m]? = some y ∧ y.resolution ≠ none ∧
       (y.phase = .finished ∨ y.phase = .panicked) := by
   unfold World.resolveTimeout
-  split
-  · exact ⟨_, by simp [h]; rfl, by simp, Or.inr rfl⟩
-  · exact ⟨_, by simp [h]; rfl, by simp, Or.inl rfl⟩
+  exact ⟨_, by simp [h]; rfl, by simp, Or.inl rfl⟩
 
 theorem expire_now (w : World) (n : Nat) : (w.expire n).now = w.now := by
   induction n with
